@@ -519,8 +519,45 @@ def run(tier="quick", seed=0):
             viol.append({"id": "ctlcfg_%d" % cfg_i, "clause": "connection_not_configured_as_the_controller", "why": why,
                          "inputs": {"n_tries": n_tries, "timeout": timeout, "scp_port": port, "machine": "12x12, Ethernet up on (0,0), (4,8), (8,4)"}})
 
+    # the length passed to recv(): the two statements of send_scp_burst that compute it are EXTRACTED from the real source
+    # (pyvc.modules, as for the deductive fragments) and executed natively for EVERY buffer size 1..65535 - the whole domain of the
+    # 16-bit size field, so complete for this pure computation: a full reply (2 bytes of padding + SDP header + 16 bytes of SCP
+    # header + buffer_size bytes of data) fits, the length depends on this call's buffer size only, and it is the smallest power of two
+    import ast as _ast
+    from pyvc import modules as _mods
+    recv_checked = 0
+    try:
+        mi_, frag_, _c = _mods.find_function("rig/machine_control/scp_connection.py::SCPConnection.send_scp_burst@seq:2:2", "max_length = ...")
+        src_mod = _ast.Module(body=list(frag_.body), type_ignores=[])
+        _ast.fix_missing_locations(src_mod)
+        code_ = compile(src_mod, "<send_scp_burst: receive length>", "exec")
+        names_ = sorted(n.id for st_ in frag_.body for n in _ast.walk(st_) if isinstance(n, _ast.Name) and isinstance(n.ctx, _ast.Store))
+        if "receive_length" not in names_:
+            raise KeyError("the statements no longer assign receive_length (assign %r)" % (names_,))
+        glb = dict(vars(S))
+        first_bad = None
+        for b in range(1, 65536):
+            env_ = {"buffer_size": b, "self": None}
+            exec(code_, glb, env_)
+            need = 2 + 8 + 16 + b
+            rl = env_["receive_length"]
+            recv_checked += 1
+            if not (isinstance(rl, int) and rl >= need and rl & (rl - 1) == 0 and rl < 2 * need) and first_bad is None:
+                first_bad = (b, rl, need)
+        ev += recv_checked
+        if first_bad is not None and len(viol) < 8:
+            viol.append({"id": "recv_length_%d" % first_bad[0], "clause": "reply_fits_receive_length",
+                         "why": "buffer_size %d: the length passed to recv() is %r; a full reply is %d bytes (the smallest power of two not below it is expected)" % first_bad,
+                         "inputs": {"buffer_size": first_bad[0]}})
+    except (KeyError, SyntaxError, NameError, TypeError, AttributeError, ValueError):
+        # the statements are gone or need more than the buffer size (the computation was moved or restructured): nothing is
+        # concluded from that here - the bursts with different buffer sizes over the truncating socket above decide
+        recv_checked = 0
     return {"name": "c06_bursts", "evaluations": ev, "distinct_nontrivial": nontrivial,
-            "rule": "real SCPConnection.send_scp_burst/send_scp over a simulated socket, select and virtual clock; a case = (configuration, outcome "
+            "rule": ("the two statements of send_scp_burst that compute the length passed to recv(), extracted from the real source and executed for every "
+                     "buffer size 1..65535: a full reply fits and the length is the smallest such power of two (%d sizes evaluated; 0 = the statements "
+                     "could not be evaluated on their own and nothing is concluded from them).  " % recv_checked) +
+                    "real SCPConnection.send_scp_burst/send_scp over a simulated socket, select and virtual clock; a case = (configuration, outcome "
                     "schedule): one outcome per transmitted datagram from {ok, request lost, reply lost, reply late by 1.25 / 2.25 timeouts, reply "
                     "duplicated at once / duplicated late, rc 0x82, rc 0x8d, fatal rc}, lazily enumerated so that every schedule whose last fault is "
                     "actually reached runs exactly once (so all cases are distinct); configurations: bursts of 1-3 commands x window 1-2 x n_tries 1-3, "
